@@ -331,10 +331,12 @@ class GroupBase:
             if all(item == [default] for item in idx_cross_mdls):
                 out_pre.append([default])
                 continue
+            # merge the matches from all models of the group
+            found = []
             for item in idx_cross_mdls:
                 if item != [default]:
-                    out_pre.append(item)
-                    break
+                    found.extend(item)
+            out_pre.append(found)
 
         if allow_all:
             out = out_pre
